@@ -22,7 +22,7 @@ COMMON_ASSUMPTIONS = [
 
 
 prop('C01',
-     rules=['TAB-IMPLICIT', 'TAB-OPS', 'TAB-KEYS-OPT', 'TAB-FORMATTERS', 'CENSUS', 'SIB-CARET', 'PATH-EMIT-HTML', ('PATH-STACK', ['markup'])],
+     rules=['TAB-IMPLICIT', 'TAB-OPS', 'TAB-KEYS-OPT', 'TAB-FORMATTERS', 'CENSUS', 'SIB-CARET', 'PATH-EMIT-HTML', ('PATH-STACK', ['markup']), 'PATH-PARSER-CTX', 'PATH-ONCE', ('PATH-INITORDER', ['abbreviation', 'markup'])],
      explanation='Decides, for every path of the code, the structural clauses of the tree property: operator characters and kinds '
                  'agree between tokenizer, parser and printer (D), implicit names come from the documented table with the span/div '
                  'fallback (D). The compositional claim "exactly the denoted tree" is a runtime-value clause and is not decided.',
@@ -30,14 +30,14 @@ prop('C01',
      technique='table agreement over constants read from the syntax tree; decision-table extraction of pure helpers')
 
 prop('C02',
-     rules=['NUM-LINEAR', ('NUM-LEFTPAD', ['abbreviation']), 'TAB-KEYS-PARSE', ('EXC-NUMCONV', ['abbreviation.tokenizer']), ('PATH-STACK', ['abbreviation'])],
+     rules=['NUM-LINEAR', ('NUM-LEFTPAD', ['abbreviation']), 'TAB-KEYS-PARSE', ('EXC-NUMCONV', ['abbreviation.tokenizer']), ('PATH-STACK', ['abbreviation']), 'PATH-ONCE'],
      explanation='Counter formulas are decided symbolically: forward base+i, reverse base+count-i-1 as linear normal forms, innermost '
                  'repeater, clamped parent index, left zero padding without truncation (D); maxRepeat reaches the converter under the key it reads (D).',
      not_decided=['exactly N copies under a global maxRepeat budget for nested repeaters (value-level)', 'tokenization of every $/@ form'],
      technique='linear normal forms of integer expressions; reader/writer key agreement')
 
 prop('C03',
-     rules=['TAB-OPS', 'TAB-BRK', 'TAB-QUOTE', 'TAB-KEYS-OPT', 'DEC-BOOL', 'DEC-MERGEDECL', 'DEC-MULTIVALUE', 'SIB-CARET', 'SIB-QUOTE', 'OWN-ASTLIST'],
+     rules=['TAB-OPS', 'TAB-BRK', 'TAB-QUOTE', 'TAB-KEYS-OPT', 'DEC-BOOL', 'DEC-MERGEDECL', 'DEC-MULTIVALUE', 'SIB-CARET', 'SIB-QUOTE', 'OWN-ASTLIST', 'PATH-EMIT-ATTR', ('PATH-INITORDER', ['abbreviation', 'markup'])],
      explanation='Shorthand/bracket/quote characters agree with token kinds and with what is printed back inside values (D); option names '
                  'exist (D); boolean / implied / quote / case decisions are extracted as complete decision tables (N).',
      not_decided=['merge results for arbitrary orders and duplicates, reverse mode, name mapping (value-level)'],
@@ -87,7 +87,7 @@ prop('C08',
                   'strings and numbers are immutable; only container/object mutation is tracked'])
 
 prop('C09',
-     rules=['RNG-STRICT/html', 'TAB-VOID', 'EXC-THROWS', 'EXC-RAISE/matcher', ('RNG-STOP', ['html_matcher']), ('SCN-REST', ['html_matcher', 'scanner_utils']), ('SCN-OVER', ['html_matcher', 'scanner_utils']), ('SCN-PROGRESS', ['html_matcher', 'scanner_utils']),
+     rules=['RNG-STRICT/html', 'TAB-VOID', 'EXC-THROWS', 'EXC-RAISE/matcher', ('RNG-STOP', ['html_matcher']), ('RNG-FRAME', ['html_matcher']), ('SCN-REST', ['html_matcher', 'scanner_utils']), ('SCN-OVER', ['html_matcher', 'scanner_utils']), ('SCN-PROGRESS', ['html_matcher', 'scanner_utils']),
             ('SCN-SKIP', ['html_matcher', 'scanner_utils']), 'SIB-VOID', ('SIB-QUOTE', ['scanner_utils']), ('PATH-FLAG', ['html_matcher']), ('CNT-DEPTH', ['scanner_utils'])],
      explanation='match and balanced_outward use one strict containment predicate with the same bounds (N); the void list is the HTML void set and '
                  'void handling depends on xml mode as documented (D); scanner helpers are never asked to throw (D).',
@@ -95,7 +95,7 @@ prop('C09',
      technique='comparison-shape analysis; table agreement')
 
 prop('C10',
-     rules=['RNG-STRICT/css', ('RNG-SENT', ['css_matcher']), 'RNG-PAREN', ('RNG-STOP', ['css_matcher']), ('SCN-REST', ['css_matcher']), ('SCN-OVER', ['css_matcher']), ('SCN-PROGRESS', ['css_matcher']),
+     rules=['RNG-STRICT/css', ('RNG-SENT', ['css_matcher']), 'RNG-PAREN', ('RNG-STOP', ['css_matcher']), 'RNG-SCANSTATE', ('SCN-REST', ['css_matcher']), ('SCN-OVER', ['css_matcher']), ('SCN-PROGRESS', ['css_matcher']),
             ('SCN-SKIP', ['css_matcher']), ('SIB-QUOTE', ['css_matcher']), 'RNG-TRIM', ('CNT-DEPTH', ['css_matcher'])],
      explanation='Strict containment (N); arithmetic on a delimiter that may be the -1 sentinel is guarded wherever it can reach a result (N); '
                  'delimiters inside parentheses (N, known finding).',
@@ -131,21 +131,21 @@ prop('C14',
      technique='field coverage; splice shape')
 
 prop('C15',
-     rules=['TAB-KEYS-PROFILE', 'TAB-FORMATTERS', 'SIB-CARET', 'SIB-SPLITLINES', 'OWN-RAWPUSH', 'PATH-LEVEL', 'PATH-EMIT-INDENT', 'INF-LEVEL'],
+     rules=['TAB-KEYS-PROFILE', 'TAB-FORMATTERS', 'SIB-CARET', 'SIB-SPLITLINES', 'OWN-RAWPUSH', 'PATH-LEVEL', 'PATH-EMIT-INDENT', 'INF-LEVEL', 'PATH-EMIT-ATTR'],
      explanation='Profile keys read by subscript exist in all three profiles and carry the documented punctuation (D); each syntax reaches its formatter (D).',
      not_decided=['tree equality with the HTML output; layout of multi-line text'],
      technique='reader/writer key agreement')
 
 prop('C16',
      rules=['SCN-CORE', ('SCN-OVER', MATCH_MODS), ('SCN-PROGRESS', MATCH_MODS), ('SCN-REST', MATCH_MODS), ('SCN-SKIP', MATCH_MODS), 'SIB-VOID', 'RNG-TRIM',
-            ('PATH-FLAG', MATCH_MODS), ('CNT-DEPTH', MATCH_MODS), ('RNG-STOP', MATCH_MODS), 'RNG-SENT', 'RNG-STRICT/html', 'RNG-STRICT/css', 'EXC-RAISE/matcher', 'EXC-THROWS'],
+            ('PATH-FLAG', MATCH_MODS), ('CNT-DEPTH', MATCH_MODS), ('RNG-STOP', MATCH_MODS), 'RNG-SCANSTATE', ('RNG-FRAME', ['html_matcher']), 'RNG-SENT', 'RNG-STRICT/html', 'RNG-STRICT/css', 'EXC-RAISE/matcher', 'EXC-THROWS'],
      explanation='No explicit raise is reachable from the matchers (D); sentinel arithmetic guarded (N); strict containment (N).',
      not_decided=['relational clauses between match / balanced_outward / balanced_inward beyond predicate agreement'],
      technique='call-graph reachability; sentinel-flow analysis')
 
 prop('C17',
      rules=[('RNG-SENT', ['action_utils']), 'RNG-STRICT/actions', 'EXC-RAISE/matcher', ('SCN-OVER', ['action_utils', 'css_matcher.parse', 'html_matcher.attributes']), ('SCN-PROGRESS', ['action_utils', 'css_matcher.parse', 'html_matcher.attributes']),
-            ('CNT-DEPTH', ['css_matcher.parse', 'action_utils']), 'RNG-TRIM', ('RNG-STOP', ['action_utils'])],
+            ('CNT-DEPTH', ['css_matcher.parse', 'action_utils']), 'RNG-TRIM', ('RNG-STOP', ['action_utils']), 'RNG-FRAME'],
      explanation='The after offset of a declaration without ; and the open-tag containment test (N).',
      not_decided=['next/previous item selection logic'],
      technique='sentinel-flow analysis')
